@@ -7,12 +7,14 @@ from .qexact import Q
 
 HEADER = """From Coq Require Import QArith Qcanon List Bool Arith. Import ListNotations.
 From QVM Require Import RankNull.
+From B Require Import Gen_C11.
 Definition qc (q : Q) : Qc := Q2Qc q.
 Definition EPSQ : Qc := Q2Qc (1 # 4503599627370496).
 (* (m, n, recorded singular values, rank(), rtol, null rank observed (columns of V kept: n - #cols)) *)
 Definition check_rank (c : nat * nat * list Q * nat * Q * nat) : bool :=
   let '(m, n, s, r, rtol, nr) := c in
-  Nat.eqb (rank_default EPSQ m n (map qc s)) r && Nat.eqb (null_rank (qc rtol) (map qc s)) nr.
+  Nat.eqb (rank_default EPSQ m n (map qc s)) r && Nat.eqb (null_rank (qc rtol) (map qc s)) nr
+  && Nat.eqb (gen_rank EPSQ m n (map qc s) None) r && Nat.eqb (length (gen_null_right m n (map qc s) (qc rtol))) (n - nr).
 """
 def Ql(x):
     x = Fraction(x); return f'({x.numerator} # {x.denominator})' if x >= 0 else f'(({x.numerator}) # {x.denominator})'
@@ -20,7 +22,17 @@ def Ql(x):
 def run(ctx):
     cm.setup_impl_path()
     for b in cm.audit(cm.coq_sources() + [os.path.join(cm.ROOT, 'props', 'C11.v')]): ctx.broken.append('audit: ' + b)
-    cm.prove(ctx, 'C11.v')
+    sys.path.insert(0, os.path.join(cm.ROOT, 'qtrans'))
+    gen_ok = False
+    try:
+        import gen_c11
+        txt, _ = gen_c11.generate(cm.REPO)
+        open(os.path.join(ctx.build, 'Gen_C11.v'), 'w').write(txt)
+        ctx.obligations.append(('translate:utils.py(rank,quat_null_space,det)', True, ''))
+        gen_ok = cm.prove(ctx, 'C11.v', ['Gen_C11.v'])
+    except Exception as e:
+        ctx.obligations.append(('translate', False, repr(e)))
+        ctx.broken.append(f'qtrans cannot translate rank / quat_null_space / det any more: {e!r}')
     try:
         import numpy as np, quaternion, utils, importlib
         qsvd = importlib.import_module('decomp.qsvd')
